@@ -11,8 +11,8 @@ META = {
     "id": "C29",
     "level": "exploration",
     "technique": "law SumRules for the unpolarised space-like matching elements (which column sums of the (g, light, heavy) singlet matrix vanish at N = 2, non-singlet entry at N = 1, accuracy class per order: table in EkoreLaws.tla) and law OmeRge (first-order L-dependence tied to the code's own leading-order anomalous dimensions of the nf and nf+1 schemes); TLC enumerates rule x order x nf x scheme x L point; residuals of the real un-jitted functions recorded as integer exponents; trace validated by TLC (EkoreLawsTrace)",
-    "text": "Sum rules: for orders 1-3, nf 3-5, L drawn in [-3, 3] (J values per cell), pole-mass and MSbar variants at second order: A_gg + A_qg + A_Hg = 0 and A_gq + A_qq + A_Hq = 0 at N = 2 including the heavy-quark row (first order also the heavy-quark column), A_qq^NS = 0 at N = 1. Where an expression is singular at the point (third-order light-quark column: 1/(N-2)), N is approached from four directions of the complex plane at distance 1e-7. Residuals are relative to the sum of the moduli of the entries, maximised over nf and over L in {L, -3, 3}. Required: first order 1e-9, second order 1e-4, third order (parametrised a_Hg^(3), fitted a_qq^NS(3)) 1e-3. RG law, first order only: dA^(1)/dL = Gamma_0^(nf) - Gamma_0^(nf+1) entry by entry in the basis (g, Sigma_light, h+) with the heavy quark inert in the nf scheme and gamma_qg (time-like: gamma_gq) split nf : 1 in the nf+1 scheme, built from the code's own leading-order anomalous dimensions, for unpolarised (all three columns), polarised and time-like matching (gluon and light-quark columns) at random complex N; the derivative is the exact difference A(L+1/2) - A(L-1/2) of a polynomial of degree 1 (class 1e-8; unchanged tree 2.5e-16 for the space-like variants).",
-    "note": "The RG clause is decided at first order only. At second and third order the law needs the products A^(1) Gamma_0, the two-loop decoupling and the scheme-dependent mass terms with the conventions of the heavy-quark column, which the code truncates differently per order (the intrinsic heavy-quark column exists at first order only); a sound acceptance class could not be derived within this round, so those cells are not planned (said so instead of a weak check). Unchanged tree: sum rules <= 1e-15 (first), <= 6e-7 (second), <= 5e-6 (third order, dominated by the distance 1e-7 of the limit).",
+    "text": "Sum rules: for orders 1-3, nf 3-5, L drawn in [-3, 3] (J values per cell), pole-mass and MSbar variants at second order: A_gg + A_qg + A_Hg = 0 and A_gq + A_qq + A_Hq = 0 at N = 2 including the heavy-quark row (first order also the heavy-quark column), A_qq^NS = 0 at N = 1. Where an expression is singular at the point (third-order light-quark column: 1/(N-2)), N is approached from four directions of the complex plane at distance 1e-7. Residuals are relative to the sum of the moduli of the entries, maximised over nf and over L in {L, -3, 3}. Required: first order 1e-9, second order 1e-5, third order (parametrised a_Hg^(3), fitted a_qq^NS(3)) 1e-4. RG law, first order only: dA^(1)/dL = Gamma_0^(nf) - Gamma_0^(nf+1) entry by entry in the basis (g, Sigma_light, h+) with the heavy quark inert in the nf scheme and gamma_qg (time-like: gamma_gq) split nf : 1 in the nf+1 scheme, built from the code's own leading-order anomalous dimensions, for unpolarised (all three columns), polarised and time-like matching (gluon and light-quark columns) at random complex N; the derivative is the exact difference A(L+1/2) - A(L-1/2) of a polynomial of degree 1 (class 1e-8; unchanged tree 2.5e-16 for the space-like variants).",
+    "note": "The RG clause is decided at first order only. At second and third order the law needs the products A^(1) Gamma_0, the two-loop decoupling and the scheme-dependent mass terms with the conventions of the heavy-quark column, which the code truncates differently per order (the intrinsic heavy-quark column exists at first order only); a sound acceptance class could not be derived within this round, so those cells are not planned (said so instead of a weak check). Unchanged tree: sum rules <= 2e-16 (first), <= 1.6e-8 (second), <= 1.3e-7 (third order, dominated by the distance 1e-7 of the limit): margins of 2.8 / 2.9 decades to the class; a violation below 1e-5 / 1e-4 relative is not detected.",
     "design_ref": "4.11, 5 C29",
     "rule": "cell = (rule, order, nf, mass scheme, L index) or (RG law, variant, order, nf, point); distinct by cell; all non-trivial",
 }
